@@ -32,6 +32,10 @@
 (*                tail instead of the consumed head (finding F4)            *)
 (*   D_ErrAdvance multi-piece loop; Err returned with earlier pieces        *)
 (*                delivered and the scanner state left advanced (F5)        *)
+(* Both deviations were what the code did at the pinned commit; the repairs *)
+(* 0f44f7b and 2b0f21d made the code the OnePiece design.  They stay in the *)
+(* model as the counterexample-producing variants (non-vacuity of           *)
+(* Consistent), and AcceptErrAdvance stays as a switch that is now off.     *)
 (***************************************************************************)
 EXTENDS Strip, Naturals
 
